@@ -157,7 +157,7 @@ func main() {
 			nAct = 7
 		}
 		var sets [][]int
-		full := f.Tier == "thorough" || r.Proto == version.MaximumVersion.Protocol || r.Proto == version.Minecraft_1_19_3.Protocol
+		full := f.Tier == "thorough" || r.Proto == version.MaximumVersion.Protocol
 		if full {
 			for m := 0; m < 1<<nAct; m++ { // every subset, canonical order
 				var s []int
@@ -176,6 +176,10 @@ func main() {
 		maxK := 3
 		if !full {
 			maxK = 2
+			for i := 0; i < nAct; i++ { // singletons and the full set
+				sets = append(sets, []int{i})
+			}
+			sets = append(sets, all)
 		}
 		for k := 2; k <= maxK; k++ {
 			sets = append(sets, perms(all, k)...)
